@@ -145,6 +145,11 @@ def run_program(prog, classes, number, mode, variant):
             if ee == sing_eps and ins["op"] in algebra.NAN_AT_BRANCH and mpmath.isnan(r.val):
                 r.kind = "skip"
                 continue
+            if ee == sing_eps and ins["op"] in ("np_sqrt", "np_cbrt"):
+                # 4th / 6th root of a rounding residue (1e-60 ** (1/6) = 1e-10): only the sign of the
+                # radicand is uncertain at the branch point; accept anything of that size
+                if abs(r.val) <= mpf(10) ** (-9 if mode == "mp" else -2) * S:
+                    continue
             if not close_num(r.val, sv, ee):
                 records.append({"kind": "register", "tag": prog["name"], "step": k, "op": ins["op"],
                                 "got": mpmath.nstr(r.val, 30), "want": mpmath.nstr(sv, 30)})
